@@ -32,10 +32,7 @@ func (ip *Interp) registerHarnessAPI() {
 	}
 	h("verifParam", func(ip *Interp, fr *frame, args []Value) Value {
 		name := ip.strArg(args[0])
-		v, ok := ip.path.Job.Params[name]
-		if !ok {
-			ip.oom("harness parameter %q not set", name)
-		}
+		v := ip.path.Job.Params[name] // missing parameters read as 0, as natively
 		return ip.st.Const(64, uint64(v))
 	})
 	h("verifByte", func(ip *Interp, fr *frame, args []Value) Value { return ip.draw(8, "byte") })
@@ -78,7 +75,7 @@ func (ip *Interp) registerHarnessAPI() {
 		return nil
 	})
 	h("verifAssert", func(ip *Interp, fr *frame, args []Value) Value {
-		ip.assertCond(args[0].(*Term), ip.strArg(args[1]))
+		ip.assertCondAt(args[0].(*Term), ip.strArg(args[1]), fr)
 		return nil
 	})
 	h("verifReached", func(ip *Interp, fr *frame, args []Value) Value {
